@@ -22,12 +22,17 @@ Definition cid_ltb (a b : cid) : bool :=
 Definition cid_eqb (a b : cid) : bool := (fst a =? fst b) && (snd a =? snd b).
 
 (* cls: 0 live, 1 recycled, 2 recycled+conflict.  gid = None: not a posix group.
+   spn = the name the stored spn (name@domain) was generated from: plugins/spn.rs re-sets the spn on EVERY
+   create/modify of a group (bumping its change id), and replication merges it as an attribute of its own,
+   so after a concurrent rename it can differ from the name.
    *_c = change id of the attribute in the entry change state ((0,0) = no record). *)
 Record ent := mkE {
   uuid : N; at_ : cid;
   name : N; name_c : cid;
+  spn : N; spn_c : cid;
   gid : option N; gid_c : cid;
-  cls : N; cls_c : cid }.
+  cls : N; cls_c : cid;
+  src : bool }.                 (* carries a source_uuid attribute (set by to_conflict, never purged here) *)
 
 Definition live (e : ent) : bool := cls e =? 0.
 
@@ -35,15 +40,17 @@ Definition opt_eqb (a b : option N) : bool :=
   match a, b with Some x, Some y => x =? y | None, None => true | _, _ => false end.
 Definition ent_eqb (a b : ent) : bool :=
   (uuid a =? uuid b) && cid_eqb (at_ a) (at_ b) && (name a =? name b) && cid_eqb (name_c a) (name_c b)
-  && opt_eqb (gid a) (gid b) && cid_eqb (gid_c a) (gid_c b) && (cls a =? cls b) && cid_eqb (cls_c a) (cls_c b).
+  && (spn a =? spn b) && cid_eqb (spn_c a) (spn_c b)
+  && opt_eqb (gid a) (gid b) && cid_eqb (gid_c a) (gid_c b) && (cls a =? cls b) && cid_eqb (cls_c a) (cls_c b)
+  && Bool.eqb (src a) (src b).
 
 Definition mem (x : N) (l : list N) : bool := existsb (N.eqb x) l.
 Fixpoint dupN (l : list N) : bool :=
   match l with [] => false | x :: r => mem x r || dupN r end.
 
-(* two entries hold a common value of a schema-unique attribute (name/spn, gidnumber) *)
+(* two entries hold a common value of a schema-unique attribute (name, spn, gidnumber) *)
 Definition share (e f : ent) : bool :=
-  (name e =? name f) ||
+  (name e =? name f) || (spn e =? spn f) ||
   match gid e, gid f with Some a, Some b => a =? b | _, _ => false end.
 
 (* ------------------------------------------------------------------ local write path *)
@@ -68,7 +75,7 @@ Definition R_NOMATCH := 3.  Definition R_OTHER := 4.
 
 Definition new_ent (c : cid) (x : N * N * option N) : ent :=
   let '(u, n, g) := x in
-  mkE u c n c g (match g with Some _ => c | None => (0, 0) end) 0 c.
+  mkE u c n c n c g (match g with Some _ => c | None => (0, 0) end) 0 c false.
 
 (* create: Base (duplicate uuid in request; uuid present in db incl. recycled) then AttrUnique (last) *)
 Definition do_create (c : cid) (new : list (N * N * option N)) (d : db) : N * db :=
@@ -79,8 +86,8 @@ Definition do_create (c : cid) (new : list (N * N * option N)) (d : db) : N * db
   else (R_OK, d ++ cands).
 
 Definition set_fld (c : cid) (fld v : N) (e : ent) : ent :=
-  if fld =? 0 then mkE (uuid e) (at_ e) v c (gid e) (gid_c e) (cls e) (cls_c e)
-  else mkE (uuid e) (at_ e) (name e) (name_c e) (Some v) c (cls e) (cls_c e).
+  if fld =? 0 then mkE (uuid e) (at_ e) v c v c (gid e) (gid_c e) (cls e) (cls_c e) (src e)
+  else mkE (uuid e) (at_ e) (name e) (name_c e) (name e) c (Some v) c (cls e) (cls_c e) (src e).   (* spn regenerated *)
 
 Definition sel (us : list N) (e : ent) : bool := live e && mem (uuid e) us.
 
@@ -98,7 +105,11 @@ Definition do_mod (c : cid) (us : list N) (fld v : N) (d : db) : N * db :=
   end.
 
 Definition set_cls (c : cid) (k : N) (e : ent) : ent :=
-  mkE (uuid e) (at_ e) (name e) (name_c e) (gid e) (gid_c e) k c.
+  mkE (uuid e) (at_ e) (name e) (name_c e) (spn e) (spn_c e) (gid e) (gid_c e) k c (src e).
+
+(* Entry::to_conflict: classes recycled + conflict and the source uuids, at the transaction's change id *)
+Definition to_conflict (c : cid) (e : ent) : ent :=
+  mkE (uuid e) (at_ e) (name e) (name_c e) (spn e) (spn_c e) (gid e) (gid_c e) 2 c true.
 
 Definition do_delete (c : cid) (us : list N) (d : db) : N * db :=
   match filter (sel us) d with
@@ -113,12 +124,23 @@ Fixpoint find (u : N) (l : list ent) : option ent :=
 (* merge_state for one attribute: take_left = cid_left > cid_right (left = incoming) *)
 Definition merge (inc d : ent) : ent :=
   let tn := cid_ltb (name_c d) (name_c inc) in
+  let ts := cid_ltb (spn_c d) (spn_c inc) in
   let tg := cid_ltb (gid_c d) (gid_c inc) in
   let tc := cid_ltb (cls_c d) (cls_c inc) in
   mkE (uuid d) (at_ d)
       (if tn then name inc else name d) (if tn then name_c inc else name_c d)
+      (if ts then spn inc else spn d) (if ts then spn_c inc else spn_c d)
       (if tg then gid inc else gid d) (if tg then gid_c inc else gid_c d)
-      (if tc then cls inc else cls d) (if tc then cls_c inc else cls_c d).
+      (if tc then cls inc else cls d) (if tc then cls_c inc else cls_c d)
+      (src inc || src d).         (* source_uuid: present as soon as one side has a record of it *)
+
+(* validate_repl: an entry that fails the schema after the merge (here: it carries source_uuid without the
+   conflict class, e.g. deleted on one replica and conflicted on another) is moved to the conflict state
+   in place (add_ava_int: no change id is recorded) *)
+Definition fixup (e : ent) : ent :=
+  if src e && negb (cls e =? 2)
+  then mkE (uuid e) (at_ e) (name e) (name_c e) (spn e) (spn_c e) (gid e) (gid_c e) 2 (cls_c e) true
+  else e.
 
 (* is_add_conflict: both live change states with different creation ids *)
 Definition add_conflict (inc d : ent) : bool := negb (cid_eqb (at_ inc) (at_ d)).
@@ -137,13 +159,13 @@ Definition creates (me : N) (inc d : ent) : bool :=
    without them (ReplIncrementalEntryV1::new only ships attributes changed inside the requested
    range), so they are canonicalised to 0 / None here and by the harness. *)
 Definition cnf_copy (c : cid) (base : N) (d : ent) : ent :=
-  mkE (base + uuid d) (at_ d) 0 (0, 0) None (0, 0) 2 c.
+  mkE (base + uuid d) (at_ d) 0 (0, 0) 0 (0, 0) None (0, 0) 2 c true.
 
 Definition upd (inc : list ent) (d : ent) : ent :=
-  match find (uuid d) inc with Some i => resolve i d | None => d end.
+  match find (uuid d) inc with Some i => fixup (resolve i d) | None => d end.
 
 Definition news (inc : list ent) (d : db) : list ent :=
-  filter (fun i => negb (mem (uuid i) (map uuid d))) inc.
+  map fixup (filter (fun i => negb (mem (uuid i) (map uuid d))) inc).
 
 Definition created (me : N) (c : cid) (base : N) (inc : list ent) (d : db) : list ent :=
   flat_map (fun x => match find (uuid x) inc with
@@ -166,7 +188,7 @@ Definition marks (cu : list N) (d1 : db) : list N :=
            (filter (fun e => live e && mem (uuid e) cu) d1).
 
 Definition apply_marks (c : cid) (m : list N) (d1 : db) : db :=
-  map (fun e => if live e && mem (uuid e) m then set_cls c 2 e else e) d1.
+  map (fun e => if live e && mem (uuid e) m then to_conflict c e else e) d1.
 
 Definition consume (me : N) (c : cid) (base : N) (inc : list ent) (d : db) : db :=
   let d1 := merged me c base inc d in
@@ -226,9 +248,10 @@ Fixpoint gpairs (l : list gent) : bool :=
 (* no two listed live entries share a uuid or a unique-attribute value *)
 Definition guniqb (l : list gent) : bool := negb (dupN (map fst l)) && gpairs l.
 
-(* what the schema-unique attributes of a modelled entry are: 0 name, 1 spn (same id as the name), 2 gidnumber *)
+(* what the schema-unique attributes of a modelled entry are: 0 name, 1 spn (id of the name it was made from),
+   2 gidnumber *)
 Definition gen_of (e : ent) : gent :=
-  (uuid e, [(0, name e); (1, name e)] ++ match gid e with Some g => [(2, g)] | None => [] end).
+  (uuid e, [(0, name e); (1, spn e)] ++ match gid e with Some g => [(2, g)] | None => [] end).
 Definition gen_db (d : db) : list gent := map gen_of (filter live d).
 
 (* same property on modelled entries *)
